@@ -242,7 +242,7 @@ func c03RunProxy(b core.Batch, r *core.Recorder) {
 		proxies[i].Cfg.Proxy.CachePolicy.DefaultMaxAge.Overwrite(duration.Duration(p.def))
 		defer proxies[i].Close()
 	}
-	kinds := []string{"max-age=2+date-ahead", "max-age=2+date-behind", "max-age=1", "MAX-AGE=1", "public|max-age=2", "expires+2s", "expires+3s", "none", "none", "expires-garbage", "expires-zero", "max-age=1+expires-past", "no-store", "max-age=0"}
+	kinds := []string{"max-age=2+date-ahead", "max-age=2+date-behind", "max-age=1", "MAX-AGE=1", "public|max-age=2", "expires+2s", "expires+3s", "none", "none", "expires-garbage", "expires-zero", "max-age=1+expires-past", "no-store", "max-age=0", "expires+2s+date-behind", "expires-past+date-older"}
 	n := b.Int("n", 120)
 	var wg sync.WaitGroup
 	sem := make(chan struct{}, b.Int("parallel", 40))
@@ -263,6 +263,11 @@ func c03RunProxy(b core.Batch, r *core.Recorder) {
 			c.ExpIn = 2 * time.Second
 		case "expires+3s":
 			c.ExpIn = 3 * time.Second
+		case "expires+2s+date-behind":
+			// the origin's clock (its Date header) is 100 s behind: the entry is still good only until the Expires date
+			c.ExpIn, c.DateSkew = 2*time.Second, -100*time.Second
+		case "expires-past+date-older":
+			c.ExpRaw, c.DateSkew = time.Now().Add(-time.Hour).UTC().Format(http.TimeFormat), -2*time.Hour
 		case "expires-garbage":
 			c.ExpRaw = "tomorrow"
 		case "expires-zero":
